@@ -1,4 +1,8 @@
+mod gen;
 mod hooks;
+mod kindv;
+mod objv;
+mod orderv;
 mod parsev;
 mod proj;
 mod util;
@@ -16,15 +20,25 @@ fn main() {
 		// replay spec-generated vectors (all kinds) from TLC output files
 		"replay" => {
 			let mut rep = Report::new();
+			let mut ost = objv::ObjState::new();
 			for path in &args.pos {
 				for_each_record(path, |rec| match rec["k"].as_str() {
 					Some("parse") => parsev::replay_parse(&mut rep, &rec),
+					Some("obj") => objv::replay_obj(&mut rep, &mut ost, &rec),
+					Some("kind_set") => kindv::replay_set(&mut rep, &rec),
+					Some("kind_ops") => kindv::replay_ops(&mut rep, &rec),
+					Some("kind_iter") => kindv::replay_iter(&mut rep, &rec),
 					Some(k) => tool_error(&format!("unknown vector kind {k}")),
 					None => (),
 				});
 			}
+			if args.get("value-kinds").is_some() {
+				kindv::check_value_kinds(&mut rep);
+			}
 			rep.finish(args.get("out"));
 		}
+		"record-obj" => objv::record(&args),
+		"record-order" => orderv::record(&args),
 		other => tool_error(&format!("unknown subcommand {other}")),
 	}
 }
